@@ -243,12 +243,17 @@ def meek_rules(rep, prog):
     stores = S.select("store", qname=q)
     ok = len(stores) >= 2
     details = []
+    unread = []
     for st in stores:
         # the guarding condition: last condition taken True on the path that consists of rule calls
         conds = [c for c, pol in st.path if pol is True and any(isinstance(x, tuple) and x[0] == "call" and x[1] in RULES for x in walk(c))]
         if not conds or st.idx[0] != "tuple" or not is_const(st.value, 0):
             ok = False
-            details.append("store %s not guarded by rule calls" % fmt(st.idx)[:60])
+            in_loop_conds = [c for c, pol in st.path]
+            if in_loop_conds and st.idx[0] == "tuple" and is_const(st.value, 0):
+                unread.append("store %s is guarded by %s: not written as a test of rule_1..4(a, b, P)" % (fmt(st.idx)[:40], fmt(in_loop_conds[-1])[:60]))
+            else:
+                details.append("store %s not guarded by rule calls" % fmt(st.idx)[:60])
             continue
         rc = [x for x in walk(conds[-1]) if isinstance(x, tuple) and x[0] == "call" and x[1] in RULES]
         args = {(dict(x[3]).get("i"), dict(x[3]).get("j")) for x in rc}
@@ -262,11 +267,24 @@ def meek_rules(rep, prog):
         if st.idx != ("tuple", (b, a)) or mats != {st.base}:
             ok = False
             details.append("rules say orient %s -> %s but the store clears [%s]" % (fmt(a)[-8:], fmt(b)[-8:], fmt(st.idx)[:80]))
-    rep.check("ORIENT.meek", ok, fwhere(f), "each branch guarded by rule_1..4(a, b, P) clears P[b, a] (orient a -> b) in the matrix the rules looked at",
-              "Meek branch and store disagree: " + "; ".join(details))
+    if ok:
+        rep.ok("ORIENT.meek", fwhere(f), "each branch guarded by rule_1..4(a, b, P) clears P[b, a] (orient a -> b) in the matrix the rules looked at")
+    elif details or not unread:
+        rep.bad("ORIENT.meek", fwhere(f), "Meek branch and store disagree: " + ("; ".join(details) or "fewer than two orienting stores"))
+    else:
+        rep.unk("ORIENT.meek", fwhere(f), "the orientation step is not in the form `if rule_1(a, b, P) or ... : P[b, a] = 0`: " + "; ".join(unread)[:200])
     loops = [(k, v) for k, v in S.loopinfo.items() if v["func"] == q and v["test"] is not None]
     okf = len(loops) == 1 and any(v in (("method", PP_, "copy", (), ()), ("ext", "numpy.array", (PP_,), ()), ("ext", "numpy.copy", (PP_,), ()), ("ext", "copy.deepcopy", (PP_,), ())) for v in loops[0][1]["init"].values()) and T(summ.ret)[0] == "after"
-    rep.check("ORIENT.fixpoint", okf, fwhere(f), "works on P.copy() and repeats until a pass orients nothing", "not a fixpoint loop over a copy of P")
+    all_loops = [v for v in S.loopinfo.values() if v["func"] == q]
+    on_param = len(loops) == 1 and any(v == PP_ for v in loops[0][1]["init"].values())
+    if okf:
+        rep.ok("ORIENT.fixpoint", fwhere(f), "works on P.copy() and repeats until a pass orients nothing")
+    elif on_param:
+        rep.bad("ORIENT.fixpoint", fwhere(f), "the orientations are written into the caller's matrix, not into a copy of P")
+    elif not loops and len(all_loops) <= 1:
+        rep.bad("ORIENT.fixpoint", fwhere(f), "one pass over the undirected edges only: the rules are not applied until nothing changes")
+    else:
+        rep.unk("ORIENT.fixpoint", fwhere(f), "not written as `P = P.copy(); while <a pass oriented something>: ...`: whether it repeats until stable on a copy is not read")
     # the "something was oriented in this pass" flag: reset to False at the start of a pass, and inside the pass it may only be
     # *raised* (True, or kept) - a fresh boolean per edge forgets the orientations made for earlier edges and ends the loop too early
     if len(loops) == 1:
@@ -289,10 +307,16 @@ def meek_rules(rep, prog):
             nx = il["next"][flag]
             okm = is_const(il["init"].get(flag), False) and only_raised(nx) and nx != muf and wl["next"].get(flag) == ("after", li_, flag)
             why = "flag is updated as %s (start of pass: %s)" % (fmt(nx)[:80], fmt(il["init"].get(flag, ("const", None))))
-        rep.check("ORIENT.flag", okm, fwhere(f), "the pass flag starts at False and is only ever raised inside a pass", "the repeat-until-stable flag can be lowered again within a pass: " + why)
+        if not okm and why == "flag / pass loop not identified":
+            rep.unk("ORIENT.flag", fwhere(f), "how the loop knows that a pass oriented something is not written as a boolean flag: not read")
+        else:
+            rep.check("ORIENT.flag", okm, fwhere(f), "the pass flag starts at False and is only ever raised inside a pass", "the repeat-until-stable flag can be lowered again within a pass: " + why)
     inner = [(k, v) for k, v in S.loopinfo.items() if v["func"] == q and v["test"] is None]
     oki = len(inner) == 1 and inner[0][1]["iter"][0] == "call" and inner[0][1]["iter"][1] == U + "undirected_edges"
-    rep.check("ORIENT.candidates", oki, fwhere(f), "only undirected edges are candidates for orientation", "candidates are not undirected_edges(P)")
+    if oki or (len(inner) == 1 and (inner[0][1]["iter"][0] == "call" or any(isinstance(x, tuple) and len(x) == 4 and x[0] == "call" and x[1] == U + "directed_edges" for x in walk(inner[0][1]["iter"])))):
+        rep.check("ORIENT.candidates", oki, fwhere(f), "only undirected edges are candidates for orientation", "candidates are not undirected_edges(P)")
+    else:
+        rep.unk("ORIENT.candidates", fwhere(f), "the candidate edges are not taken from one loop over undirected_edges(P): not read")
 
 
 def meek_definitions(rep, prog):
